@@ -16,7 +16,8 @@ Sources:
                      and `update_account_contacts`)
 * `acme_proto/account.rs:33-81`    `register_account` (closure `:46-54`)
 * `acme_proto/account.rs:83-109`   `update_account_contacts` (URL `:97`)
-* `acme_proto/account.rs:111-154`  `update_account_key` (`Model/KeyChange.lean`)
+* `acme_proto/account.rs:111-166`  `update_account_key` (`Model/KeyChange.lean`), and the
+                     POST-as-GET of the account URL after a refused roll-over (`:144-158`)
 * `acme_proto/structs/account.rs:9-47`  `Account::new`: newAccount payload, external account binding
 * `acme_proto/http.rs:41-149`  which URL each helper passes to `post`
 * `acme_proto.rs:108-287`      the call sites of `request_certificate`
@@ -170,6 +171,25 @@ def siteOf (sg : Signer) (dir : Dir) (u : Urls) (d : Data) (a : Account) :
   | .orderPoll => some ⟨u.order, kidBuilder sg a [], []⟩                       -- `:215-222`, `:267-274`
   | .finalize => some ⟨u.finalize, kidBuilder sg a d.csr, []⟩                  -- `:253-258`
   | .certDownload => some ⟨u.cert, kidBuilder sg a [], []⟩                     -- `:283-284`
+  | .accountProbe =>                     -- `acme_proto/account.rs:158-161` (`b""`, to `account_url`,
+    match a.ep with                      --   signed by the CURRENT key; for the query signed by the
+    | none => none                       --   RECORDED key see `oldKeyProbeSite`)
+    | some ep => some ⟨ep.accountUrl, kidBuilder sg a [], []⟩
+
+/-- The closure `old_key_probe` of `update_account_key` (`acme_proto/account.rs:135-145`, since
+1fb1c1a): signed by the past key whose fingerprint the endpoint record carries, `kid` = the account
+URL, empty payload (POST-as-GET). -/
+def oldKeyProbeBuilder (sg : Signer) (p : Prepared) : Builder := fun n url =>
+  encodeKid sg p.oldKey p.accountUrl [] url n
+
+/-- The FIRST request of `update_account_key` since 1fb1c1a (a `Flow.ReqKind.accountProbe` event
+whose signer is the recorded key): POST-as-GET to the account URL.  It is made after everything
+`prepare` computes (`:120-132`, each step with `?`), so it exists exactly when the roll-over request
+could be built. -/
+def oldKeyProbeSite (sg : Signer) (dirKeyChange : List Char) (a : Account) : Option Site :=
+  match prepare sg dirKeyChange a with
+  | none => none
+  | some p => some ⟨p.accountUrl, oldKeyProbeBuilder sg p, []⟩
 
 /-! ## On the wire -/
 
